@@ -737,7 +737,7 @@ def c11(ck):
     # race detector
     racelog = os.path.join(ck.scratch, "race")
     # all sets made only of the programs that derive values from shared globals, and every 3rd of the others
-    derive = [c_ for c_ in r.cases if all(" sv" in t_ or " sl" in t_ or " sm" in t_ or " sr" in t_ or "shf" in t_ for t_ in c_["texts"])]
+    derive = [c_ for c_ in r.cases if all(" sv" in t_ or " sl" in t_ or " sm" in t_ or " sr" in t_ or "shf" in t_ or "sfut" in t_ for t_ in c_["texts"])]
     rest_ = [c_ for c_ in r.cases if c_ not in derive]
     ck.harness(["replay", "-repeat", "2"], derive + rest_[:: (3 if q else 1)], race=True, timeout=3000,
                env={"GORACE": "log_path=%s halt_on_error=0 exitcode=0" % racelog})
